@@ -19,7 +19,8 @@ CHUNK = 20
 LEN_BOUNDARY = [0, 1, 2, 254, 255, 256, 257, 509, 510, 511, 764, 765, 766, 1020, 65535]
 PATS = ["ramp", "55", "3c", "ff", "00", "m00.p0", "m00.p1", "m00.p2", "m01.p0", "m01.p1", "m01.p2", "mFF.p0", "mFF.p1", "mFF.p2"]
 TEXT_PATS = ["dos", "unix", "mac", "mixeol"]
-ADDRS = [0, 1, 0xFF, 0x100, 0x0E00, 0x1234, 0x3C55, 0x553C, 0x7FFF, 0x8000, 0xFF00, 0xFFFF]
+ADDRS = [0, 1, 0xFF, 0x100, 0x0E00, 0x1234, 0x3C55, 0x553C, 0x7FFF, 0x8000, 0xFF00, 0xFFFF,
+         0x000A, 0x0A00, 0x300A, 0x0D0A]        # bytes that are line ends in text
 NAMES = ["", "A", "AB", "PROG", "z9", "Hello", "ABCDEFG", "ABCDEFGH", "ABCDEFGHI", "abcdefghijkl", "A-B", "9", "MixedCas",
          "GAME.V2", "A.B", "V.1.2", "END.", ".CFG", "A,B", "X;Y", "#1", "$FF", "'Q'", "[Z]", "A+B", "0", "007"]        # any printable character may be part of a name
 
